@@ -42,7 +42,7 @@ def run(ctx):
     nonvac = mc.nonvacuity(ctx, ["Bug_NoTrimAdjust", "Bug_BytePositions"], alpha="s", maxlen=2)
 
     # ------------------------------------------------------ S->C and C->S in one trace
-    n = 200000 if thorough else 24000
+    n = 500000 if thorough else 25000
     st = mc.run_safety(ctx, n=n, beh=ctx.path("beh.ndjson"))
     events = st.pop("events_list")
     outcomes = {}
